@@ -1,7 +1,7 @@
 (* Property C04 — CLI file-mode exit code equals the documented comparison semantics. *)
 From Coq Require Import QArith Arith Bool List.
 From FC Require Import Model.Scalar Model.Predicates Model.Compare Model.Cli Model.CliFile
-                       Proofs.CompareP Proofs.PredicatesP Proofs.CliP.
+                       Model.ReadAs Proofs.CompareP Proofs.PredicatesP Proofs.CliP Proofs.ReadAsP.
 Import ListNotations.
 Local Open Scope nat_scope.
 
@@ -80,6 +80,14 @@ Proof.
   apply C04_cli_exit_iff in E; try assumption. destruct E as [_ [E _]]. apply Hne. apply E; assumption.
 Qed.
 Print Assumptions C04_predicate_error_nonzero.
+
+(* --read-as: the reader selected for a file has one of ITS patterns matching the file name; none is selected (default,
+   extension-based reading) exactly when no pattern matches *)
+Theorem C04_read_as_selection : forall maps matches,
+  (forall r, select_reader maps matches = Some r -> exists p, In (r, p) maps /\ matches p = true) /\
+  (select_reader maps matches = None <-> forall r p, In (r, p) maps -> matches p = false).
+Proof. intros. split; [intros r; apply select_reader_matches | apply select_reader_none]. Qed.
+Print Assumptions C04_read_as_selection.
 
 Example C04_nonvacuous :
   let col n v := (n, n, {| kind := KF64; shape := [2]; data := [SF 1; SF v] |}) in
